@@ -130,6 +130,8 @@ where
     /// and notifying all waiters that there is a value.
     fn complete(&self, res: SingleflightResult<T, E>) {
         // write-lock
+        #[cfg(feature = "verif")]
+        verif_hooks::point("sf.res.write");
         let mut val = self.res.write();
         *val = Some(res);
         self.nt.notify_waiters();
@@ -141,6 +143,8 @@ where
     /// might occur.
     fn get_future(&self) -> impl Future<Output = SingleflightResult<T, E>> + '_ {
         // read-lock
+        #[cfg(feature = "verif")]
+        verif_hooks::point("sf.res.read");
         let res = self.res.read();
         if let Some(result) = res.clone() {
             // we already have the result, provide it back to the caller.
@@ -165,6 +169,8 @@ where
     /// Gets the result for the Call if set.
     /// If not set, then [SingleflightError::NoResult] is returned
     fn get(&self) -> SingleflightResult<T, E> {
+        #[cfg(feature = "verif")]
+        verif_hooks::point("sf.res.read2");
         let res = self.res.read();
         res.clone().unwrap_or(Err(SingleflightError::NoResult))
     }
@@ -227,7 +233,15 @@ where
         if created {
             // spawn the owner task and wait
             let owner_task = OwnerTask::new(fut, call.clone());
+            #[cfg(not(feature = "verif"))]
             let owner_handle = Handle::current().spawn(owner_task);
+            #[cfg(feature = "verif")]
+            let owner_handle = if verif_hooks::controlled() {
+                Either::Left(verif_hooks::spawn(owner_task))
+            } else {
+                let h = Handle::current().spawn(owner_task);
+                Either::Right(async move { h.await.map_err(|e| verif_hooks::JoinError(e.to_string())) })
+            };
 
             // wait for the owner task and results to come back
             let (handle_result, future_result) = tokio::join!(owner_handle, results_future);
@@ -261,6 +275,8 @@ where
     /// Returns the [Call] that should be used and whether it was created or
     /// not.   
     async fn get_call_or_create(&self, key: &str) -> (Arc<Call<T, E>>, bool) {
+        #[cfg(feature = "verif")]
+        verif_hooks::point("sf.map.lock");
         let mut m = self.call_map.lock().await;
         if let Some(c) = m.get(key).cloned() {
             (c, false)
@@ -275,6 +291,8 @@ where
     /// Removes the [Call] associated with the Key. If there is no such [Call],
     /// then an error is returned.
     async fn remove_call(&self, key: &str) -> SingleflightResult<(), E> {
+        #[cfg(feature = "verif")]
+        verif_hooks::point("sf.map.lock2");
         let mut m = self.call_map.lock().await;
         m.remove(key).ok_or(SingleflightError::CallMissing)?;
         Ok(())
